@@ -3,6 +3,7 @@ package main
 import (
 	"fmt"
 	"go/ast"
+	"go/constant"
 	"go/token"
 	"go/types"
 	"math"
@@ -26,12 +27,15 @@ func checkC03(c *Ctx, r *Report) {
 	checkMod10(c, r)
 	checkUPCEUses(c, r)
 	checkUPCEExpand(c, r)
+	checkUPCEParityLookup(c, r)
 	checkUPCEANReaderEnforces(c, r)
 	checkUPCEANWritersEnforce(c, r)
 	checkCode128Checksum(c, r)
 	checkCode93Checksum(c, r)
 	check1DTables(c, r)
 	checkCodabarMinLength(c, r)
+	checkTryNextReader(c, r)
+	checkCodabarWriterWhole(c, r)
 	checkCode128RoundTrip(c, r)
 	checkRowScan(c, r)
 	checkNumericOnly(c, r)
@@ -1594,4 +1598,222 @@ func checkNumericOnly(c *Ctx, r *Report) {
 	}
 	r.Extra("M-NUMERIC inputs", len(inputs))
 	reportFold(r, c, "M-NUMERIC", key, fd.Pos(), bad)
+}
+
+// M-TRYNEXT: the multi-format UPC/EAN reader moves on to the next sub-reader after any kind of reader failure
+func checkTryNextReader(c *Ctx, r *Report) {
+	r.Rule("M-TRYNEXT", "multiFormatUPCEANReader.DecodeRow: when a sub-reader fails on the row, the loop over the readers continues with the next one for every kind of reader failure - not found, checksum and format alike (the failure handling inside the loop is folded for the three kinds; the type it asks the error for is resolved with go/types) - and only an error that is no reader failure ends the loop: a symbol is not lost because a reader listed earlier in POSSIBLE_FORMATS rejected it with a format or checksum error", 1)
+	fd, p := c.funcDeclOf("oned", "multiFormatUPCEANReader.DecodeRow")
+	key := "oned.multiFormatUPCEANReader.DecodeRow/next-reader"
+	if fd == nil {
+		r.AnchorLost("M-TRYNEXT", key, "method not found")
+		return
+	}
+	r.Analysed(key)
+	var loop *ast.RangeStmt
+	ast.Inspect(fd.Body, func(n ast.Node) bool {
+		if rs, ok := n.(*ast.RangeStmt); ok && loop == nil {
+			if len(findCalls(p, rs.Body, func(o types.Object) bool {
+				fn, ok := o.(*types.Func)
+				return ok && fn.Name() == "decodeRowWithStartRange"
+			})) == 1 {
+				loop = rs
+			}
+		}
+		return true
+	})
+	if loop == nil {
+		r.Undecided("M-TRYNEXT", key, c.pos(fd.Pos()), "the loop over the sub-readers was not found")
+		return
+	}
+	// the error of the sub-reader call and the first statement that looks at it
+	var errObj types.Object
+	var handler ast.Stmt
+	for _, st := range loop.Body.List {
+		if as, ok := st.(*ast.AssignStmt); ok && len(as.Lhs) == 2 && len(as.Rhs) == 1 && errObj == nil {
+			if call, isC := as.Rhs[0].(*ast.CallExpr); isC {
+				if fn, isF := typeutil.Callee(p.TypesInfo, call).(*types.Func); isF && fn.Name() == "decodeRowWithStartRange" {
+					errObj = identObj(p, as.Lhs[1])
+					continue
+				}
+			}
+		}
+		if errObj != nil && handler == nil && usesIdent(p, st, errObj) {
+			handler = st
+		}
+	}
+	if errObj == nil || handler == nil {
+		r.Undecided("M-TRYNEXT", key, c.pos(loop.Pos()), "the sub-reader call / its failure handling was not found")
+		return
+	}
+	root := c.Pkgs[modPath]
+	kinds := map[string]types.Type{}
+	for _, k := range []string{"NotFoundException", "ChecksumException", "FormatException"} {
+		if o := root.Types.Scope().Lookup(k); o != nil {
+			kinds[k] = o.Type()
+		}
+	}
+	if len(kinds) != 3 {
+		r.Undecided("M-TRYNEXT", key, c.pos(loop.Pos()), "the three reader-failure kinds were not found in the root package")
+		return
+	}
+	bad := ""
+	for _, k := range []string{"NotFoundException", "ChecksumException", "FormatException"} {
+		kt := kinds[k]
+		env := map[types.Object]*Val{errObj: vstr("failure:" + k)}
+		rr := &rpf{c: c, p: p, env: env, curFn: fd}
+		rr.assertHook = func(x *rpf, ta *ast.TypeAssertExpr, v *Val) (bool, bool) {
+			if v.K != VStr || !strings.HasPrefix(v.S, "failure:") {
+				return false, false
+			}
+			it, ok := p.TypesInfo.TypeOf(ta.Type).Underlying().(*types.Interface)
+			if !ok {
+				return false, true // a concrete type: not what the library's constructors return through this interface
+			}
+			return types.Implements(kt, it), true
+		}
+		rr.callHook = errCtorHook
+		outcome := "falls through to the result handling"
+		func() {
+			defer func() {
+				if y := recover(); y != nil {
+					switch e := y.(type) {
+					case rpfContinue:
+						outcome = "continue"
+					case *rpfErr:
+						outcome = "?" + e.Error()
+					default:
+						panic(y)
+					}
+				}
+			}()
+			if ret := rr.stmtC(handler); ret != nil {
+				outcome = "the error is returned"
+			}
+		}()
+		if outcome != "continue" {
+			if outcome[0] == '?' {
+				bad = outcome
+			} else {
+				bad = fmt.Sprintf("after a sub-reader fails with a %s the next reader is not tried: %s", k, outcome)
+			}
+			break
+		}
+	}
+	reportFold(r, c, "M-TRYNEXT", key, handler.Pos(), bad)
+}
+
+// S-CODABARW: the Codabar writer's buffer arithmetic, as a whole function
+func checkCodabarWriterWhole(c *Ctx, r *Report) {
+	r.Rule("S-CODABARW", "codabarEncoder.encodeWithHints, folded as a whole function (tables read from the source) on contents that put every character of the alphabet between guards, on contents without guards and with the alternative guard letters: the module slice it returns is exactly the characters' 7 elements (narrow 1, wide 2 modules, bars and spaces alternating from a bar) separated by one white module - its precomputed length is the number of modules written, no write lands outside it", 1)
+	fd, p := c.funcDeclOf("oned", "codabarEncoder.encodeWithHints")
+	key := "oned.codabarEncoder.encodeWithHints/whole"
+	if fd == nil {
+		r.AnchorLost("S-CODABARW", key, "method not found")
+		return
+	}
+	r.Analysed(key)
+	alphaObj := c.lookupObj("oned", "codabarReader_ALPHABET")
+	encInit, ep := c.varInit("oned", "codabarReader_CHARACTER_ENCODINGS")
+	if alphaObj == nil || encInit == nil {
+		r.AnchorLost("S-CODABARW", key, "alphabet / encodings table not found")
+		return
+	}
+	alpha := ""
+	if k, ok := alphaObj.(*types.Const); ok {
+		alpha = constant.StringVal(k.Val())
+	}
+	encs, ok := listInts(c.eval(ep, encInit))
+	if !ok || len(encs) != len(alpha) || len(alpha) != 20 {
+		r.Undecided("S-CODABARW", key, c.pos(fd.Pos()), "alphabet / encodings table not constant")
+		return
+	}
+	render := func(text string) []bool {
+		var out []bool
+		for i := 0; i < len(text); i++ {
+			code := encs[strings.IndexByte(alpha, text[i])]
+			color := true
+			for bit := 0; bit < 7; bit++ {
+				out = append(out, color)
+				if (code>>uint(6-bit))&1 == 1 {
+					out = append(out, color)
+				}
+				color = !color
+			}
+			if i < len(text)-1 {
+				out = append(out, false)
+			}
+		}
+		return out
+	}
+	// the writer's own package variables: literal lists, and the default guard derived from the first of them
+	globals := map[types.Object]*Val{}
+	for _, n := range []string{"codabarWriter_START_END_CHARS", "codabarWriter_ALT_START_END_CHARS", "codabarWriter_CHARS_WHICH_ARE_TEN_LENGTH_EACH_AFTER_DECODED", "codabarReader_CHARACTER_ENCODINGS"} {
+		if o := c.lookupObj("oned", n); o != nil {
+			if init, ip := c.varInitOfObj(o); init != nil {
+				globals[o] = c.eval(ip, init)
+			}
+		}
+	}
+	if o := c.lookupObj("oned", "codabarWriter_DEFAULT_GUARD"); o != nil {
+		if init, ip := c.varInitOfObj(o); init != nil {
+			if v, err := c.rpfExpr(ip, init, globals, nil); err == nil {
+				globals[o] = v
+			}
+		}
+	}
+	type tc struct{ in, as string }
+	var cases []tc
+	for i := 0; i < 16; i++ {
+		ch := string(alpha[i])
+		cases = append(cases, tc{"A" + ch + "B", "A" + ch + "B"}, tc{ch + ch, "A" + ch + ch + "A"})
+	}
+	cases = append(cases, tc{"C1:2-/.+$D", "C1:2-/.+$D"}, tc{"T12N", "A12B"}, tc{"*9:E", "C9:D"}, tc{"7", "A7A"}, tc{"a1b", "A1B"})
+	bad := ""
+	for _, cs := range cases {
+		h := &rpf{unroll: 4096, maxSteps: 400000}
+		h.callHook = func(rr *rpf, call *ast.CallExpr, callee types.Object) (*Val, bool) {
+			if fn, ok := callee.(*types.Func); ok && fn.Pkg() != nil && fn.Pkg().Path() == "strings" && fn.Name() == "ToUpper" && len(call.Args) == 1 {
+				if v := rr.expr(call.Args[0]); v.K == VStr {
+					return vstr(strings.ToUpper(v.S)), true
+				}
+			}
+			return errCtorHook(rr, call, callee)
+		}
+		res, err := c.rpfCallWithGlobals(fd, p, []*Val{vstr(cs.in), {K: VNil}}, h, globals)
+		if err != nil {
+			if strings.Contains(err.Error(), "out of range") || strings.Contains(err.Error(), "outside a local list") {
+				bad = fmt.Sprintf("contents %q: the writer indexes outside its module slice (%v): a run-time panic", cs.in, err)
+			} else {
+				bad = fmt.Sprintf("?contents %q: %v", cs.in, err)
+			}
+			break
+		}
+		if len(res) != 2 || res[1].K != VNil || res[0].K != VList {
+			bad = fmt.Sprintf("contents %q: refused, although every character is in the Codabar alphabet", cs.in)
+			break
+		}
+		want := render(cs.as)
+		var got []bool
+		for _, e := range res[0].L {
+			got = append(got, e.K == VBool && e.B)
+		}
+		if fmt.Sprint(got) != fmt.Sprint(want) {
+			bad = fmt.Sprintf("contents %q: %d modules %s; the characters %q are %d modules %s", cs.in, len(got), boolString(got), cs.as, len(want), boolString(want))
+			break
+		}
+	}
+	reportFold(r, c, "S-CODABARW", key, fd.Pos(), bad)
+}
+
+func boolString(bs []bool) string {
+	var sb strings.Builder
+	for _, b := range bs {
+		if b {
+			sb.WriteByte('1')
+		} else {
+			sb.WriteByte('0')
+		}
+	}
+	return sb.String()
 }
